@@ -277,3 +277,39 @@ M('C10', 'lowroot-neg-no-roll', DS, "    inv_e = jnp.roll(inv_e, -(d - padding_s
 M('C10', 'lowroot-avg-over-padded', DS, "  num_real_eigs_to_avg = real_dim - abs(compression_rank)", "  num_real_eigs_to_avg = d - abs(compression_rank)")
 M('C10', 'lowroot-keep-split', DS, "  keep_e, to_avg_e = inv_e[:split_ix], inv_e[split_ix:]", "  keep_e, to_avg_e = inv_e[:split_ix], inv_e[split_ix + 1:]")
 TW('C10', 'twin-unpack-positive-col', DS, "  const = preconditioner[0, -1]\n", "  const = preconditioner[0, r + 1]\n")
+
+# ------------------------------------------------------------------ C11
+M('C11', 'int8-128-buckets', QU, "      num_buckets = jnp.array(127.0, dtype=float_dtype)", "      num_buckets = jnp.array(128.0, dtype=float_dtype)")
+M('C11', 'int16-32768-buckets', QU, "      num_buckets = jnp.array(32767.0, dtype=float_dtype)", "      num_buckets = jnp.array(32768.0, dtype=float_dtype)")
+M('C11', 'no-round', QU, "    quantized = jnp.round(ratio)\n", "    quantized = ratio\n")
+M('C11', 'floor', QU, "    quantized = jnp.round(ratio)\n", "    quantized = jnp.floor(ratio)\n")
+M('C11', 'round-half-up-trunc', QU, "    quantized = jnp.round(ratio)\n", "    quantized = ratio + 0.5\n")
+M('C11', 'scale-axis-1', QU, "    max_abs = jnp.max(jnp.abs(fvalue), axis=0)", "    max_abs = jnp.max(jnp.abs(fvalue), axis=-1)")
+M('C11', 'no-zero-guard', QU, "    ratio = fvalue / bs_nonzero", "    ratio = fvalue / bs_expanded")
+M('C11', 'overflowing-ratio', QU, "    ratio = fvalue / bs_nonzero", "    ratio = fvalue * num_buckets / jnp.where(max_abs > 0, max_abs, 1.0)[jnp.newaxis, ...]")
+M('C11', 'diag-not-removed', QU, "      fvalue = fvalue - jnp.diag(diagonal_fvalue)", "      fvalue = fvalue")
+M('C11', 'diag-clamped-on-read', QU, "      val += jnp.diag(self.diagonal)", "      val += jnp.diag(jnp.maximum(self.diagonal, 0.0))")
+M('C11', 'to-float-bucket-axis', QU, "    bucket_size = self.bucket_size[jnp.newaxis, ...]\n    val =", "    bucket_size = self.bucket_size[..., jnp.newaxis]\n    val =")
+M('C11', 'to-float-no-diag', QU, "    if self.extract_diagonal:\n      val += jnp.diag(self.diagonal)", "    if self.extract_diagonal and False:\n      val += jnp.diag(self.diagonal)")
+M('C11', 'from-float-shape-tuple', QU, "                          list(quantized.shape))", "                          quantized.shape)")
+M('C11', 'from-float-flag-dropped', QU, "    quantized, diagonal_fvalue, bucket_size = QuantizedValue.quantize(\n        fvalue, quantized_dtype, extract_diagonal)", "    quantized, diagonal_fvalue, bucket_size = QuantizedValue.quantize(\n        fvalue, quantized_dtype)")
+M('C11', 'rewrap-flag-false', DS, "      qv = QuantizedValue(qx, qd, qb, qx.dtype, True, list(qx.shape))", "      qv = QuantizedValue(qx, qd, qb, qx.dtype, False, list(qx.shape))")
+M('C11', 'bf16-to-float-noop', QU, "      return self.quantized.astype(jnp.float32)", "      return self.quantized")
+TW('C11', 'twin-rint', QU, "    quantized = jnp.round(ratio)\n", "    quantized = jnp.rint(ratio)\n")
+TW('C11', 'twin-bucket-renamed', QU, "    bucket_size = max_abs / num_buckets\n    bs_expanded = bucket_size[jnp.newaxis, ...]", "    scale = max_abs / num_buckets\n    bucket_size = scale\n    bs_expanded = scale[jnp.newaxis, ...]")
+
+# ------------------------------------------------------------------ C12
+M('C12', 'sketch-min', SM3, "      dim_diagonal_statistics = jnp.max(updated_diagonal_statistics, axis=axes)", "      dim_diagonal_statistics = jnp.min(updated_diagonal_statistics, axis=axes)")
+M('C12', 'sketch-mean', SM3, "      dim_diagonal_statistics = jnp.max(updated_diagonal_statistics, axis=axes)", "      dim_diagonal_statistics = jnp.mean(updated_diagonal_statistics, axis=axes)")
+M('C12', 'sketch-masked-max', SM3, "      dim_diagonal_statistics = jnp.max(updated_diagonal_statistics, axis=axes)", "      dim_diagonal_statistics = jnp.max(updated_diagonal_statistics, axis=axes, where=jnp.isfinite(updated_diagonal_statistics), initial=0.0)")
+M('C12', 'sketch-axes-prefix-only', SM3, "      axes = list(range(i)) + list(range(i + 1, grad.ndim))", "      axes = list(range(i)) + list(range(i + 2, grad.ndim))")
+M('C12', 'grad-not-squared', SM3, "      return beta2 * min_accumulator + w * grad**2", "      return beta2 * min_accumulator + w * jnp.abs(grad)")
+M('C12', 'rank1-wrong-acc', SM3, "      return beta2 * accumulators[0] + w * grad**2", "      return beta2 * accumulators[-1] * 0.5 + w * grad**2")
+M('C12', 'w-when-beta2-1', SM3, "    w = (1.0 - beta2) if beta2 != 1.0 else 1.0\n    if grad.ndim < 2:", "    w = (1.0 - beta2)\n    if grad.ndim < 2:")
+M('C12', 'expanded-shape-wrong-axis', SM3, "    return [1] * i + [shape[i]] + [1] * (rank - i - 1)", "    return [1] * (rank - i - 1) + [shape[i]] + [1] * i")
+M2('C12', 'normalised-stats-raw-step', [(SM3, "    stats = state.stats\n    if normalize_grads:", "    stats = state.stats\n    raw_updates = updates\n    if normalize_grads:"), (SM3, "    preconditioned_grads = jax.tree.map(lambda g, p: g * p, updates,\n                                        new_preconditioners)", "    preconditioned_grads = jax.tree.map(lambda g, p: g * p, raw_updates,\n                                        new_preconditioners)")])
+M('C12', 'precond-from-old-stats', SM3, "        lambda t: 1.0 / jnp.sqrt(t + diagonal_epsilon), new_diagonal_statistics)", "        lambda t: 1.0 / jnp.sqrt(t + diagonal_epsilon), jax.tree.map(lambda e: functools.reduce(jnp.minimum, e), expanded_diagonal_statistics))")
+M('C12', 'init-acc-param-dtype', SM3, "      accumulators = [jnp.zeros([s]) for s in param.shape]", "      accumulators = [jnp.zeros([s], dtype=param.dtype) for s in param.shape]")
+M('C12', 'rank1-override-dropped', SM3, "    if grad.ndim == 1:\n      all_diagonal_statistics[0] = updated_diagonal_statistics\n", "")
+TW('C12', 'twin-combine-maximum', SM3, "      min_accumulator = functools.reduce(jnp.minimum, accumulators)", "      min_accumulator = functools.reduce(jnp.maximum, accumulators)")
+TW('C12', 'twin-square', SM3, "      return beta2 * min_accumulator + w * grad**2", "      return w * jnp.square(grad) + min_accumulator * beta2")
